@@ -98,6 +98,9 @@ func (p *Path) f2iCutNew(x *Term, bits uint8, signed bool) *Term {
 	if r := p.f2iQuot(x, bits, signed); r != nil {
 		return r
 	}
+	if r := p.f2iDyadic(x, bits, signed); r != nil {
+		return r
+	}
 	e, ok := encloseFloat(x)
 	if !ok || e.x == nil {
 		return nil
@@ -220,7 +223,13 @@ func (p *Path) quotProduct(t *Term) (L, q *Term, ok bool) {
 
 // floatLtZero decides t < 0.0 for the intercepted shapes; nil when t is not one of them.
 func (p *Path) floatLtZero(t *Term) *Term {
-	if p == nil || p.fdivInfo == nil {
+	if p == nil {
+		return nil
+	}
+	if c := p.dyadicLtZero(t); c != nil {
+		return c
+	}
+	if p.fdivInfo == nil {
 		return nil
 	}
 	st := p.store
@@ -330,4 +339,145 @@ func timesPow2(t *Term) (*Term, int, bool) {
 		}
 	}
 	return nil, 0, false
+}
+
+// ---- exact dyadic chains ----
+//
+// A float64 built from ONE integer term x (signed or unsigned) by float64(x) and then
+// multiplications by positive finite constants and divisions by positive powers of two is,
+// while |x|*M < 2^53 (M = product of the odd parts of the multipliers), computed without any
+// rounding: every intermediate value is x * (odd integer <= M) * 2^e, which has at most 53
+// significant bits (no overflow / underflow for the exponents that occur: |e| <= 600 is
+// required). Its value is then exactly x*N/D with D a power of two, its sign is the sign of x,
+// it is never NaN, and truncation to an integer is integer division. Outside the hypothesis
+// nothing is asserted about the conversion result (sound, weaker).
+
+type dyadic struct {
+	x    *Term
+	N, D *big.Int // value = x*N/D
+	M    *big.Int // odd-part product
+}
+
+// splitDyadic writes a positive finite constant as m * 2^e with m an odd integer.
+func splitDyadic(f float64) (m *big.Int, e int, ok bool) {
+	if !(f > 0) || math.IsInf(f, 0) || math.IsNaN(f) {
+		return nil, 0, false
+	}
+	fr, ex := math.Frexp(f) // f = fr * 2^ex, 0.5 <= fr < 1
+	mi := uint64(fr * (1 << 53))
+	ex -= 53
+	for mi%2 == 0 {
+		mi /= 2
+		ex++
+	}
+	return new(big.Int).SetUint64(mi), ex, true
+}
+
+func dyadicChain(t *Term) (dyadic, bool) {
+	switch t.op {
+	case OI2F:
+		x := t.a[0]
+		if x.kind != KInt {
+			return dyadic{}, false
+		}
+		return dyadic{x, big.NewInt(1), big.NewInt(1), big.NewInt(1)}, true
+	case OFMul:
+		for k := 0; k < 2; k++ {
+			c := t.a[1-k]
+			if !c.isConst() {
+				continue
+			}
+			d, ok := dyadicChain(t.a[k])
+			if !ok {
+				return dyadic{}, false
+			}
+			m, e, ok := splitDyadic(c.f64Val())
+			if !ok || e > 600 || e < -600 {
+				return dyadic{}, false
+			}
+			N, D := new(big.Int).Mul(d.N, m), new(big.Int).Set(d.D)
+			if e >= 0 {
+				N.Lsh(N, uint(e))
+			} else {
+				D.Lsh(D, uint(-e))
+			}
+			return dyadic{d.x, N, D, new(big.Int).Mul(d.M, m)}, true
+		}
+	case OFDiv:
+		c := t.a[1]
+		if !c.isConst() {
+			return dyadic{}, false
+		}
+		d, ok := dyadicChain(t.a[0])
+		if !ok {
+			return dyadic{}, false
+		}
+		m, e, ok := splitDyadic(c.f64Val())
+		if !ok || m.Cmp(big.NewInt(1)) != 0 || e > 600 || e < -600 {
+			return dyadic{}, false
+		}
+		N, D := new(big.Int).Set(d.N), new(big.Int).Set(d.D)
+		if e >= 0 {
+			D.Lsh(D, uint(e))
+		} else {
+			N.Lsh(N, uint(-e))
+		}
+		return dyadic{d.x, N, D, d.M}, true
+	}
+	return dyadic{}, false
+}
+
+// reduce cancels common powers of two.
+func (d dyadic) reduce() dyadic {
+	g := new(big.Int).GCD(nil, nil, d.N, d.D)
+	return dyadic{d.x, new(big.Int).Quo(d.N, g), new(big.Int).Quo(d.D, g), d.M}
+}
+
+// f2iDyadic: exact conversion of a dyadic chain over a SIGNED integer term (unsigned terms
+// keep the older rules, which also cover values above 2^53).
+func (p *Path) f2iDyadic(t *Term, bits uint8, signed bool) *Term {
+	d, ok := dyadicChain(t)
+	if !ok || !d.x.signed || t.op == OI2F {
+		return nil
+	}
+	d = d.reduce()
+	if d.M.BitLen() > 40 || d.N.BitLen() > 700 || d.D.BitLen() > 700 {
+		return nil
+	}
+	st := p.store
+	p.nondetSeq["fpcut"]++
+	r := st.Var(fmt.Sprintf("fpcut_%d", p.nondetSeq["fpcut"]), KInt, bits, signed)
+	xw, rw := st.Conv(d.x, 0, false), st.Conv(r, 0, false)
+	mulc := func(t *Term, c *big.Int) *Term { return st.mk(&Term{op: OMul, kind: KWide, a: []*Term{t, st.Wide(c)}}) }
+	imp := func(h, c *Term) *Term { return st.Or(st.Not(h), c) }
+	two53 := new(big.Int).Lsh(big.NewInt(1), 53)
+	xm := mulc(xw, d.M)
+	exact := st.And(st.Lt(xm, st.Wide(two53)), st.Lt(st.Wide(new(big.Int).Neg(two53)), xm))
+	xn := mulc(xw, d.N)
+	zero, one := st.Wide(big.NewInt(0)), st.Wide(big.NewInt(1))
+	limit := new(big.Int).Lsh(big.NewInt(1), uint(bits))
+	lower := new(big.Int).Neg(d.D) // value > -1
+	if signed {
+		limit = new(big.Int).Lsh(big.NewInt(1), uint(bits-1))
+		lower = new(big.Int).Neg(new(big.Int).Add(new(big.Int).Mul(limit, d.D), d.D)) // value > -2^(bits-1) - 1
+	}
+	inRange := st.And(st.Lt(xn, st.Wide(new(big.Int).Mul(limit, d.D))), st.Lt(st.Wide(lower), xn))
+	// truncation toward zero
+	pos := st.And(st.Le(mulc(rw, d.D), xn), st.Lt(xn, mulc(st.Bin(OAdd, rw, one), d.D)))
+	neg := st.And(st.Lt(mulc(st.Bin(OSub, rw, one), d.D), xn), st.Le(xn, mulc(rw, d.D)))
+	trunc := st.And(imp(st.Le(zero, xn), pos), imp(st.Lt(xn, zero), neg))
+	p.assertPC(imp(st.And(exact, inRange), trunc))
+	p.fpCuts++
+	p.notes = append(p.notes, "float chain int*dyadic constants converted exactly while |x|*M < 2^53 (f2iDyadic)")
+	return r
+}
+
+// dyadicLtZero: the sign of a dyadic chain is the sign of its integer.
+func (p *Path) dyadicLtZero(t *Term) *Term {
+	d, ok := dyadicChain(t)
+	if !ok || !d.x.signed {
+		return nil
+	}
+	st := p.store
+	return st.Lt(st.Conv(d.x, 0, false), st.Wide(big.NewInt(0)))
 }
